@@ -629,7 +629,7 @@ var noiseExceptional = func() []*big.Int {
 // may be. Checks sprinkle it between cases so that no monitored call is always the first of its kind in the process.
 func Noise(r *gen.Rng) {
 	for i := 0; i < 3; i++ {
-		switch r.Intn(18) {
+		switch r.Intn(20) {
 		case 0:
 			secp256k1.NewScalar().MinusOne()
 		case 1:
@@ -679,6 +679,27 @@ func Noise(r *gen.Rng) {
 		case 16:
 			var y field.Element
 			secp256k1.Secp256Polynomial(&y, FE(big.NewInt(int64(r.Intn(9)))))
+		case 17:
+			// hashing with very short tags, all three functions on the same tag
+			d := r.Bytes(1 + r.Intn(3))
+			secp256k1.HashToGroup(r.Bytes(2), d)
+			secp256k1.HashToScalar(r.Bytes(2), d)
+			secp256k1.EncodeToGroup(r.Bytes(2), d)
+		case 18:
+			// caller bugs that panic inside the library (a nil receiver), recovered by the caller: whatever the call had
+			// acquired by then must not stay acquired
+			k := secp256k1.NewScalar().SetUInt64(5 + uint64(r.Intn(9)))
+			_, _ = Call(func() { NilElem.Multiply(k) })
+			_, _ = Call(func() { NilElem.Add(secp256k1.Base()) })
+			_, _ = Call(func() { NilElem.Subtract(secp256k1.Base()) })
+			_, _ = Call(func() { NilElem.Double() })
+			_, _ = Call(func() { _ = NilElem.Encode() })
+			_, _ = Call(func() { _ = NilElem.Decode(secp256k1.Base().Encode()) })
+			_, _ = Call(func() { NilScal.Add(k) })
+			_, _ = Call(func() { NilScal.Pow(k) })
+			_, _ = Call(func() { NilScal.Random() })
+			_, _ = Call(func() { _ = NilScal.Encode() })
+			_, _ = Call(func() { k.LessOrEqual(nil) })
 		default:
 			// the documented mistake, recovered from
 			_, _ = Call(func() { secp256k1.HashToGroup([]byte("x"), nil) })
